@@ -238,6 +238,18 @@ def check(prop, tier, seed, t0):
                 prop, f['what'], f['id'], c.target, obs['outcome'][:80]))
         else:
             print('note: known finding %s no longer reproduces natively (%s)' % (f['id'], obs['outcome'][:120]))
+    # findings identified by a concrete native witness (defects outside the deductive core, e.g. floating-point artefacts)
+    for f in known['findings']:
+        if f.get('kind') != 'native-witness' or prop not in (f.get('properties') or [f['property']]):
+            continue
+        try:
+            bad, shown = native.run_witness(f['witness'], f['bad'])
+        except Exception as ex:
+            bad, shown = False, 'witness not replayable: %s' % ex
+        if bad:
+            kf_lines.append('KNOWN-FINDING: property=%s %s [%s; witness result: %s]' % (prop, f['what'], f['id'], shown[:100]))
+        else:
+            print('note: known finding %s no longer reproduces natively (%s)' % (f['id'], shown[:120]))
     # baseline of obligation ids (vacuity / regression guard)
     base_path = os.path.join(HERE, 'baseline', '%s.json' % prop)
     ids_now = sorted({o['id'] for res in results if res['status'] == 'ok' for o in res['obligations'] if prop in o['props']})
